@@ -157,6 +157,17 @@ Theorem C11_replayed_initiation_never_accepted : forall st now m sid x mid now2 
 Proof. exact replayed_initiation_never_accepted. Qed.
 Print Assumptions C11_replayed_initiation_never_accepted.
 
+(* Crossed handshakes: when the device's own initiation completes while it holds an unconfirmed
+   responder keypair, the old current session is discarded; transport under it is refused
+   whatever it claims, so it cannot move the endpoint. *)
+Theorem C11_crossed_handshake_discards_current : forall st now m sid x s0 s1 e,
+  resp_accepts st m = Some x -> p_cur x = Some s0 -> p_next x = Some s1 ->
+  s_id s0 <> sid -> s_id s0 <> s_id s1 ->
+  t_owner e = Some (p_id x, s_id s0) ->
+  elem_accepts (fst (step st (EResp now m sid))) e = None.
+Proof. exact crossed_handshake_discards_current. Qed.
+Print Assumptions C11_crossed_handshake_discards_current.
+
 (* Non-vacuity: peer 2 configured at (1,5555).  A fresh initiation from (4,5555) moves it and is
    answered there; its replay from (7,1) does nothing; a batch [bad tag from (5,1); counter 0 from
    (6,2); counter 1 from (3,9); counter 0 again from (8,8)] leaves (3,9); UAPI sets (9,9);
